@@ -10,6 +10,11 @@ Per run (this file):
   (i)  correspondence of PhiManip.phi_1D with the model on all regimes (evaluated in Coq on NumD, quadrature slot
        filled by a Gauss-Legendre rule written in Coq), finiteness / non-negativity / continuity across the
        switches evaluated on the implementation;
+  (iii) Integration.one_pop with every argument of its signature (initial_t, frozen, deme_ids, each parameter as number /
+       constant function / linear function of absolute time) entry by entry against the model drivers of Model/NDSweep.v
+       STARTED AT initial_t, the chaining identity (one call = two calls split at a step boundary) on the real code, and
+       histories handed over as functions of ABSOLUTE time (nu, theta0, gamma) integrated in one call from 0, in chained
+       calls (initial_t = start, T = end of each epoch) and with a moved time origin, all against the same oracle;
   (ii) the NUMERICAL half, checked not proved (no finite-difference convergence theory is available in the
        installed libraries): generated size histories run through the real code at timescale_factor 1e-3 and
        1e-4 against the Coq-evaluated coalescent oracle / closed-form selection equilibrium, and stationarity of
@@ -374,6 +379,161 @@ def gen_histories(ctx):
                            {'kind': 'const', 'nu': 2.0, 'T': 0.1875}, {'kind': 'const', 'nu': 2.5, 'T': 0.015625}], 'id': len(cases)})
     return cases
 
+# histories handed to Integration.one_pop as functions of ABSOLUTE time, integrated piece by piece with initial_t / T
+# or with a shifted time origin (one_pop's initial_t is "the time at which to start", T "the time at which to halt")
+
+def _ep(nu, T, theta=1.0, gamma=0.0):
+    if isinstance(nu, tuple):
+        return {'kind': 'exp', 'nu_start': nu[0], 'nu_end': nu[1], 'T': T, 'theta': theta, 'gamma': gamma}
+    return {'kind': 'const', 'nu': nu, 'T': T, 'theta': theta, 'gamma': gamma}
+
+# (name, carrier = the argument whose time dependence the case isolates, epochs oldest first, theta of the ancestral epoch)
+HISTX_FIXED = [
+    ('N1', 'nu', [_ep(0.3, 0.2), _ep(3.0, 0.15), _ep(0.8, 0.3)], 1.0),
+    ('N2', 'nu', [_ep(0.25, 0.0625), _ep((0.25, 4.0), 0.25), _ep(2.0, 0.125)], 1.0),
+    ('T1', 'theta0', [_ep(2.0, 0.25, theta=3.0), _ep(2.0, 0.25, theta=0.5)], 1.0),
+    ('T2', 'theta0', [_ep(0.5, 0.125, theta=2.0), _ep((0.5, 4.0), 0.25, theta=0.25), _ep(4.0, 0.125, theta=1.5)], 0.75),
+    # selection changing with time: long after the last change (T/nu >= 12) the spectrum is the equilibrium of the LAST
+    # coefficient; the earlier epochs are at least as long as the last one, so that a call which looks up gamma at the
+    # wrong time never sees the last coefficient
+    ('G1', 'gamma', [_ep(0.0625, 0.75, gamma=-24.0), _ep(0.0625, 0.75, gamma=16.0)], 1.0),
+    ('G2', 'gamma', [_ep(0.125, 0.5, gamma=4.0), _ep(0.125, 1.0, gamma=-16.0), _ep(0.125, 1.5, gamma=-8.0)], 1.0),
+]
+HISTX_MODES = ['single', 'chained', 'shifted']
+
+def histx_case(name, carrier, epochs, theta_anc, mode, n, pts0, extrap, shift, split_at=None):
+    edges = []; t = 0.0
+    for e in epochs:
+        t = t + e['T']; edges.append(t)
+    Ttot = edges[-1]
+    if mode in ('single', 'shifted'):
+        cuts = [0.0, Ttot]
+    elif mode in ('chained', 'chained_shifted'):
+        cuts = [0.0] + edges
+    else:   # 'split': every epoch in several calls
+        cuts = sorted(set([0.0] + edges + list(split_at or [])))
+    s = shift if mode in ('shifted', 'chained_shifted') else 0.0
+    # which arguments MUST be functions: those that change inside one call; plus the carrier
+    need = {carrier}
+    for a, bb in zip(cuts[:-1], cuts[1:]):
+        inside = [e for e, st, en in zip(epochs, [0.0] + edges[:-1], edges) if st < bb - 1e-12 and en > a + 1e-12]
+        if any(e['kind'] == 'exp' for e in inside) or len({e.get('nu') for e in inside}) > 1:
+            need.add('nu')
+        if len({e['theta'] for e in inside}) > 1:
+            need.add('theta0')
+        if len({e['gamma'] for e in inside}) > 1:
+            need.add('gamma')
+    c = {'kind': 'histx', 'name': name, 'carrier': carrier, 'mode': mode, 'epochs': epochs, 'theta_anc': theta_anc, 'cuts': cuts, 'shift': s,
+         'as_func': sorted(need), 'outside': {'nu': 0.03125, 'theta': 8.0 * max(e['theta'] for e in epochs), 'gamma': -64.0},
+         'n': n, 'pts_l': [pts0, pts0 + 10, pts0 + 20], 'extrap': extrap, 'tfs': [1e-3, 1e-4], 'coarse': False}
+    if carrier == 'gamma':
+        nu = epochs[-1]['nu']; g = epochs[-1]['gamma'] * nu
+        c['sel'] = {'g': g, 'scale': nu * epochs[-1]['theta'], 'res': max([3.5 * abs(g)] + [abs(e['gamma'] * e['nu']) for e in epochs])}
+        c['pts_l'] = [pts0 + int(8 * c['sel']['res']) + k for k in (0, 10, 20)]
+    return c
+
+def gen_histx(ctx):
+    """systematic in every run: each fixed history x {one call from t = 0, chained calls with initial_t = start and T = end
+    of every epoch, one call with the time origin moved} ; more (random histories, chained + moved origin, epochs cut in
+    several calls) in the thorough tier.  Own random stream, so that the other generators are unaffected."""
+    import random
+    rng = random.Random('C01-histx-%d' % ctx.seed)
+    cases = []
+    for k, (name, carrier, eps, tha) in enumerate(HISTX_FIXED):
+        n = rng.randint(6, 12) if carrier != 'gamma' else rng.randint(6, 20)     # one sample size per history: the oracle is evaluated once
+        for m, mode in enumerate(HISTX_MODES):
+            shift = lib.dyadic(rng, 1.5, 4.0, 3) if carrier != 'gamma' else lib.dyadic(rng, 1.0, 1.5, 3) + eps[-1]['T']
+            cases.append(histx_case(name, carrier, eps, tha, mode, n, rng.randint(40, 50), ['lin', 'log'][(k + m) % 2], shift))
+    if not ctx.quick:
+        for rep in range(36):
+            carrier = ['nu', 'theta0', 'nu', 'theta0', 'gamma'][rep % 5] if rep % 12 != 11 else 'gamma'
+            if carrier == 'gamma':
+                nu = numgen.logdy(rng, 0.0625, 0.125, 3)
+                ne = rng.randint(2, 3)
+                Tl = nu * lib.dyadic(rng, 12, 16, 1)
+                gs = [lib.dyadic(rng, -2.0, 1.5, 2) / nu for _ in range(ne)]
+                if abs(gs[-1] - gs[-2]) * nu < 0.75:
+                    gs[-2] = gs[-1] - 1.5 / nu if gs[-1] > 0 else gs[-1] + 1.5 / nu
+                eps = [_ep(nu, Tl * rng.choice([1.0, 1.25]), gamma=g) for g in gs[:-1]] + [_ep(nu, Tl, gamma=gs[-1])]
+                tha = 1.0
+            else:
+                ne = rng.randint(1, 4)
+                eps = []; prev = 1.0
+                for j in range(ne):
+                    # size changes by at most a factor 4 downwards from one epoch to the next: the time step of the first
+                    # step of a call is estimated from the size BEFORE the change (documented inconsistency of the driver)
+                    nu = numgen.logdy(rng, max(0.2, prev / 4), 5.0)
+                    th = numgen.logdy(rng, 0.25, 4.0, 3) if carrier == 'theta0' else 1.0
+                    T = numgen.logdy(rng, 0.03, 0.4)
+                    if rng.random() < 0.3 and nu != prev and j > 0:
+                        eps.append(_ep((prev, nu), T, theta=th))
+                    else:
+                        eps.append(_ep(nu, T, theta=th))
+                    prev = nu
+                tha = numgen.logdy(rng, 0.5, 2.0, 3) if carrier == 'theta0' else 1.0
+                if carrier == 'theta0':
+                    for e in eps:
+                        e['theta'] = e['theta'] if rng.random() < 0.8 else tha
+            mode = rng.choice(['single', 'chained', 'shifted', 'chained_shifted', 'split', 'split'])
+            split_at = []
+            if mode == 'split':
+                t = 0.0
+                for e in eps:
+                    for f in sorted(rng.sample([0.125, 0.25, 0.5, 0.75], rng.randint(1, 2))):
+                        split_at.append(t + f * e['T'])
+                    t += e['T']
+            n = rng.randint(3, 12) if carrier != 'gamma' else rng.randint(3, 24)
+            shift = lib.dyadic(rng, 0.5, 6.0, 3) if carrier != 'gamma' else lib.dyadic(rng, 1.0, 1.5, 3) + eps[-1]['T']
+            cases.append(histx_case('R%d' % rep, carrier, eps, tha, mode, n, rng.randint(40, 60), rng.choice(['lin', 'log']), shift, split_at))
+    # the long ones first (pool with chunksize 1)
+    cases.sort(key=lambda c: 0 if c['carrier'] == 'gamma' else 1)
+    for i, c in enumerate(cases):
+        c['id'] = 1000 + i
+    return cases
+
+def replay_filter(ctx, cases, kinds):
+    """--replay: only the recorded case when it is one of `kinds`, nothing when it belongs to another part"""
+    if not ctx.replay:
+        return cases
+    rp = json.load(open(ctx.replay))
+    c = (rp.get('input') or {}).get('case')
+    if isinstance(c, dict) and c.get('kind') in kinds:
+        c = dict(c); c.setdefault('id', 0)
+        return [c]
+    if isinstance(c, dict):
+        return []
+    return cases
+
+def start_histx(ctx):
+    """the absolute-time histories run in the background (a separate interpreter) while the other parts are evaluated"""
+    import concurrent.futures
+    cases = replay_filter(ctx, gen_histx(ctx), ('histx',))
+    if not cases:
+        return [], None
+    ex = concurrent.futures.ThreadPoolExecutor(1)
+    fut = ex.submit(lib.run_impl, 'c01_impl.py', cases, 3000, {'C01_POOL': '4'})
+    ex.shutdown(wait=False)
+    return cases, fut
+
+def coq_epochs_th(epochs):
+    """oldest first -> most recent first: (is_exp, nu_recent, nu_old, T, theta)"""
+    out = []
+    for e in reversed(epochs):
+        if e['kind'] == 'exp':
+            out.append('(true, %s, %s, %s, %s)' % (q(e['nu_end']), q(e['nu_start']), q(e['T']), q(e['theta'])))
+        else:
+            out.append('(false, %s, %s, %s, %s)' % (q(e['nu']), q(e['nu']), q(e['T']), q(e['theta'])))
+    return '[' + '; '.join(out) + ']'
+
+def histx_desc(c):
+    def ed(e):
+        s = ('nu=%r->%r' % (e['nu_start'], e['nu_end'])) if e['kind'] == 'exp' else 'nu=%r' % e['nu']
+        return '(%s T=%r theta0=%r gamma=%r)' % (s, e['T'], e['theta'], e['gamma'])
+    calls = ', '.join('one_pop(T=%r, initial_t=%r)' % (c['shift'] + bb, c['shift'] + a) for a, bb in zip(c['cuts'][:-1], c['cuts'][1:]))
+    return 'history %s as functions of absolute time (%s as function%s), epochs oldest first %s, ancestral theta0=%r, time origin at %r, calls: %s; n=%d pts=%r extrap=%s' % (
+        c['name'], ', '.join(c['as_func']), 's' if len(c['as_func']) > 1 else '', ' '.join(ed(e) for e in c['epochs']), c['theta_anc'], c['shift'], calls,
+        c['n'], c['pts_l'], c['extrap'])
+
 def coq_epochs(hist):
     """history is oldest first; the oracle wants most recent first: (is_exp, nu_recent, nu_old, T)"""
     out = []
@@ -386,7 +546,8 @@ def coq_epochs(hist):
 
 _PAIR = re.compile(r'\((-?\d+),\((-?\d+),(-?\d+)\)\)')
 
-def run_pair_files(ctx, tag, exprs, fn, shard):
+def pair_files(tag, exprs, fn, shard):
+    """generated files: every case through `fn : case -> Z * Z`"""
     files = []
     for k in range(0, len(exprs), shard):
         chunk = exprs[k:k + shard]
@@ -396,22 +557,36 @@ def run_pair_files(ctx, tag, exprs, fn, shard):
         body.append('Definition results := map (fun p => (fst p, %s (snd p))) [%s].' % (fn, '; '.join('(%d%%Z, case_%d)' % (cid, cid) for cid, _ in chunk)))
         body.append('Eval vm_compute in results.')
         files.append(('C01_%s_%d' % (tag, k // shard), '\n'.join(body) + '\n'))
+    return files
+
+def shared_oracle_file(name, oracle_expr, runs):
+    """one oracle evaluation compared with several runs of the implementation: runs = [(id, fs3, fs4)]"""
+    body = [HEADER, '',
+            'Definition results := let o := %s in map (fun p => (fst p, (Dppb (Dmaxrel Dtiny o (z2D (fst (snd p)))), Dppb (Dmaxrel Dtiny o (z2D (snd (snd p))))))) [%s].' % (
+                oracle_expr, '; '.join('(%d%%Z, (%s, %s))' % (cid, zzl(f3), zzl(f4)) for cid, f3, f4 in runs)),
+            'Eval vm_compute in results.']
+    return (name, '\n'.join(body) + '\n')
+
+def run_files(ctx, files, what):
+    """all files in ONE parallel batch; returns id -> (err at 1e-3, err at 1e-4)"""
     out = {}
     for nme, (rc, so, se, secs) in lib.run_case_files(files, timeout=2400).items():
+        if os.environ.get('C01_DEBUG'):
+            print('TIMING coqc %s %.1f s' % (nme, secs))
         if rc != 0:
             ctx.obligation('coqc %s' % nme, False, 'correspondence', se[-600:])
             continue
         s = re.sub(r'\s+', '', so).replace('%Z', '')
         for m in _PAIR.finditer(s):
             out[int(m.group(1))] = (int(m.group(2)) * 1e-9, int(m.group(3)) * 1e-9)
-    ctx.checker_cmds.append('coqc -Q coq/theories Dadi build/cases/C01_%s_*.v  (%d cases, oracle evaluated by vm_compute)' % (tag, len(exprs)))
+    ctx.checker_cmds.append('coqc -Q coq/theories Dadi build/cases/C01_{%s}_*.v  (oracles evaluated by vm_compute)' % what)
     return out
 
 def conv_floor(p0, sel=False):
     """level of the grid error, below which the time-step error cannot be seen (selected densities: the discrete stationary state)"""
     return 0.010 if (p0 < 60 or sel) else 0.006 if p0 < 100 else 0.004
 
-def history_part(ctx):
+def history_part(ctx, xcases=(), xfut=None):
     cases = gen_histories(ctx)
     if ctx.replay:
         rp = json.load(open(ctx.replay))
@@ -419,23 +594,37 @@ def history_part(ctx):
             c = rp['input']['case']; c['id'] = 0; cases = [c]
         elif rp.get('input') and 'case' in rp['input']:
             cases = []
-    res = lib.run_impl('c01_impl.py', cases, timeout=3000)
+    import time
+    t0 = time.time()
+    res = lib.run_impl('c01_impl.py', cases, timeout=3000) if cases else []
+    t1 = time.time()
+    if xfut is not None:
+        res = res + xfut.result()
+        cases = cases + list(xcases)
+    if os.environ.get('C01_DEBUG'):
+        print('TIMING hist impl %.1f s, waited %.1f s more for the absolute-time histories' % (t1 - t0, time.time() - t1))
     byid = {r['id']: r for r in res}
-    hex_, sex = [], []
+    hex_, sex, xruns = [], [], {}
+    xf = Findings(ctx)
     for c in cases:
         r = byid[c['id']]
-        ctx.count('hist via=' + c['via']); ctx.count('hist extrap=' + c['extrap']); ctx.count('hist n<=5' if c['n'] <= 5 else 'hist n>=25' if c['n'] >= 25 else 'hist n mid')
-        if 'hist' in c:
-            ctx.count('hist epochs=%d' % len(c['hist']))
+        if c['kind'] == 'histx':
+            ctx.count('histx %s: %s as function, %s' % (c['name'], c['carrier'], c['mode'])); ctx.count('histx calls with initial_t <> 0', sum(1 for a in c['cuts'][:-1] if c['shift'] + a != 0))
+        else:
+            ctx.count('hist via=' + c['via']); ctx.count('hist extrap=' + c['extrap']); ctx.count('hist n<=5' if c['n'] <= 5 else 'hist n>=25' if c['n'] >= 25 else 'hist n mid')
+            if 'hist' in c:
+                ctx.count('hist epochs=%d' % len(c['hist']))
         if 'error' in r:
             ctx.obligation('hist case %d runs' % c['id'], False, 'predicate', r['error'])
-            ctx.violation('one-population model raised %s' % r['error'], data={'case': c, 'impl': r})
+            ctx.violation('one-population model raised %s%s' % (r['error'], (' (%s)' % histx_desc(c)) if c['kind'] == 'histx' else ''), data={'case': c, 'impl': r})
             continue
         f3 = r['fs'][repr(1e-3)][1:-1]; f4 = r['fs'][repr(1e-4)][1:-1]
         if not all(math.isfinite(v) for v in f3 + f4):
             ctx.violation('one-population spectrum has non-finite entries', data={'case': c, 'impl': r})
             continue
-        if 'sel' in c:
+        if c['kind'] == 'histx':
+            xruns[c['id']] = (f3, f4)
+        elif 'sel' in c:
             g = c['sel']['g']
             terms = int(8 * abs(g)) + 80
             sex.append((c['id'], '{| sc_n := %d%%nat; sc_theta := %s; sc_g := %s; sc_terms := %d%%nat; sc_fs3 := %s; sc_fs4 := %s |}' % (
@@ -443,11 +632,38 @@ def history_part(ctx):
         else:
             hex_.append((c['id'], '{| hc_n := %d%%nat; hc_eps := %s; hc_theta := %s; hc_fs3 := %s; hc_fs4 := %s |}' % (
                 c['n'], coq_epochs(c['hist']), q(c.get('theta0', 1.0)), zzl(f3), zzl(f4))))
-    errs = {}
+    files = []
     if hex_:
-        errs.update(run_pair_files(ctx, 'hist', hex_, 'hist_check', ctx.pick(1, 4)))
+        files += pair_files('hist', hex_, 'hist_check', ctx.pick(1, 4))
     if sex:
-        errs.update(run_pair_files(ctx, 'sel', sex, 'sel_check', ctx.pick(1, 4)))
+        files += pair_files('sel', sex, 'sel_check', ctx.pick(1, 4))
+    # absolute-time histories: the runs of one history with the same sample size share ONE evaluation of the oracle
+    groups = {}
+    for c in cases:
+        if c['kind'] == 'histx' and c['id'] in xruns:
+            groups.setdefault((c['name'], c['n']), []).append(c)
+    for (name, n), cs in sorted(groups.items()):
+        c = cs[0]
+        if 'sel' in c:
+            g = c['sel']['g']
+            orc = 'sel_oracle {| sc_n := %d%%nat; sc_theta := %s; sc_g := %s; sc_terms := %d%%nat; sc_fs3 := []; sc_fs4 := [] |}' % (
+                n, q(Fraction(c['sel']['scale'])), q(g), int(8 * abs(g)) + 80)
+        else:
+            orc = 'hist_th_oracle {| ht_n := %d%%nat; ht_eps := %s; ht_thA := %s; ht_fs3 := []; ht_fs4 := [] |}' % (n, coq_epochs_th(c['epochs']), q(c['theta_anc']))
+        files.append(shared_oracle_file('C01_histx_%s_%d' % (name, n), orc, [(cc['id'],) + xruns[cc['id']] for cc in cs]))
+    if groups:
+        # the oracle with a theta per epoch against the constant-theta oracle where they must coincide (theorem
+        # C01_coal_theta_per_epoch_uniform over R; here the two evaluations on NumDF)
+        files += pair_files('histgap', [(999999, '(5%%nat, %s, 3#2)' % coq_epochs([{'kind': 'const', 'nu': 0.25, 'T': 0.0625}, {'kind': 'exp', 'nu_start': 0.25, 'nu_end': 4.0, 'T': 0.25},
+                                                                                {'kind': 'const', 'nu': 2.0, 'T': 0.125}]))],
+                            '(fun c => (hist_th_uniform_gap (fst (fst c)) (snd (fst c)) (snd c), 0%Z))', 1)
+    errs = run_files(ctx, files, 'hist,sel,histx,histgap') if files else {}
+    if groups:
+        gap = errs.pop(999999, None)
+        ctx.obligation('oracle with one theta per epoch = constant-theta oracle when all thetas are equal (evaluated: n = 5, three epochs)',
+                       gap is not None and gap[0] <= 1e-9, 'correspondence', repr(gap))
+    if os.environ.get('C01_DEBUG'):
+        print('TIMING oracles evaluated %.1f s after the implementation runs' % (time.time() - t1))
     worst = 0.0
     for c in cases:
         if c['id'] not in errs:
@@ -456,10 +672,15 @@ def history_part(ctx):
             continue
         e3, e4 = errs[c['id']]
         p0 = c['pts_l'][0]
-        if os.environ.get('C01_DEBUG'):
+        if os.environ.get('C01_DEBUG') and c['kind'] == 'hist':
             print('HIST', c['via'], c['n'], c['pts_l'], c['extrap'], c.get('params', c.get('hist')), c.get('sel'), 'err %.4g %.4g' % (e3, e4))
-        desc = 'via=%s n=%d pts=%r extrap=%s %s' % (c['via'], c['n'], c['pts_l'], c['extrap'],
-                                                     ('params=%r' % c['params']) if 'params' in c else 'hist=%r' % [(e.get('nu', (e.get('nu_start'), e.get('nu_end'))), e['T']) for e in c['hist']])
+        if c['kind'] == 'histx':
+            desc = histx_desc(c)
+            if os.environ.get('C01_DEBUG'):
+                print('HISTX', c['name'], c['carrier'], c['mode'], c['n'], c['pts_l'], c['extrap'], 'err %.4g %.4g' % (e3, e4))
+        else:
+            desc = 'via=%s n=%d pts=%r extrap=%s %s' % (c['via'], c['n'], c['pts_l'], c['extrap'],
+                                                         ('params=%r' % c['params']) if 'params' in c else 'hist=%r' % [(e.get('nu', (e.get('nu_start'), e.get('nu_end'))), e['T']) for e in c['hist']])
         ctx.case(signature=('hist', json.dumps(c, sort_keys=True)), sample={'case': c, 'err_1e-3': e3, 'err_1e-4': e4} if c['id'] % 11 == 0 else None)
         ok15 = e4 <= 0.015
         okconv = e4 <= max(0.3 * e3, conv_floor(p0, 'sel' in c))
@@ -474,12 +695,15 @@ def history_part(ctx):
         worst = max(worst, e4)
         ctx.obligation('hist %d within 1.5%% of the oracle at 1e-4: %s' % (c['id'], desc), ok15, 'predicate', 'err %.4g / %.4g' % (e3, e4))
         ctx.obligation('hist %d error shrinks with the time step: %s' % (c['id'], desc), okconv, 'predicate', 'err %.4g / %.4g floor %.3g' % (e3, e4, conv_floor(p0, 'sel' in c)))
+        # (the absolute-time histories: one violation per argument passed as a function, the other failing inputs listed with it)
+        report = (lambda what, data: xf.add(('histx', c['carrier']), what, data)) if c['kind'] == 'histx' else (lambda what, data: ctx.violation(what, data=data))
         if not ok15:
-            ctx.violation('one-population spectrum is %.2f%% from exact theory at timescale_factor 1e-4 (%.2f%% at 1e-3): %s' % (100 * e4, 100 * e3, desc),
-                          data={'case': c, 'impl': byid[c['id']], 'err': [e3, e4]})
+            report('one-population spectrum is %.2f%% from exact theory at timescale_factor 1e-4 (%.2f%% at 1e-3): %s' % (100 * e4, 100 * e3, desc),
+                   {'case': c, 'impl': byid[c['id']], 'err': [e3, e4]})
         elif not okconv:
-            ctx.violation('error against exact theory does not shrink with the time step: %.3g at 1e-3, %.3g at 1e-4 (%s)' % (e3, e4, desc),
-                          data={'case': c, 'impl': byid[c['id']], 'err': [e3, e4]})
+            report('error against exact theory does not shrink with the time step: %.3g at 1e-3, %.3g at 1e-4 (%s)' % (e3, e4, desc),
+                   {'case': c, 'impl': byid[c['id']], 'err': [e3, e4]})
+    xf.flush()
     ctx.err('spectrum vs oracle at 1e-4 (fine grids)', math.floor(math.log2(worst)) if worst > 0 else -10000, '1.5% per polymorphic entry')
 
 def gen_stationarity(ctx):
@@ -663,6 +887,169 @@ def driver_part(ctx):
                               'absorbing boundary terms 0.5/nu): nu=%r gamma=%r h=%r beta=%r theta0=%r as_func=%r differs from the model beyond 1e-9' % (p['nu'], p['gamma'], p['h'], p['beta'], c['theta0'], c['as_func']),
                               data={'case': c, 'impl': byid[c['id']], 'coq': rr})
 
+# ------------------------------------------------------------------------------------------------
+# one_pop with EVERY argument of its signature against the model drivers started at time t0 = initial_t
+# (Model/NDSweep.v integrate_const / integrate_tdep ... t T, Model/EquilibriumCheck.v onepop_check), and the chaining
+# identity  one call over [t0, T]  =  calls over [t0, t1], [t1, T]  (t1 a step boundary of the single call) on the real code
+
+PAR1 = ('nu', 'gamma', 'h', 'beta', 'theta0')
+
+def _max_vm(nu, gamma, h):
+    return max(0.25 / nu, abs(gamma) * 2 * max(0.125, abs(0.25 + 0.5 * h) * 0.1875))
+
+def drv1_case(rng, forms, t0, nsteps, extra=None, kind='drv1'):
+    """forms: name -> 'scalar' | 'const' | 'lin'.  Parameters are value + slope * t (absolute time)."""
+    n = rng.randint(5, 14)
+    par = {'nu': [numgen.logdy(rng, 0.05, 20), lib.dyadic(rng, 0.25, 2, 3)],
+           'gamma': [lib.dyadic(rng, -8, 8, 3) if rng.random() < 0.8 else 0.0, rng.choice([-1, 1]) * lib.dyadic(rng, 0.25, 2, 3)],
+           'h': [rng.choice([0.5, 0.0, 1.0, lib.dyadic(rng, 0, 1, 5)]), rng.choice([-1, 1]) * lib.dyadic(rng, 0.0625, 0.25, 4)],
+           'beta': [numgen.logdy(rng, 0.2, 5), lib.dyadic(rng, 0.125, 1, 3)],
+           'theta0': [lib.dyadic(rng, 0.25, 4, 4), lib.dyadic(rng, 0.25, 1, 3)]}
+    for name in PAR1:
+        if forms[name] != 'lin':
+            par[name][1] = 0.0
+    if t0 < 0:
+        # positive sizes / rates over the whole interval (the start is moved to about one step before 0 below)
+        for name in ('nu', 'beta', 'theta0'):
+            par[name][0] += 0.5
+    at = lambda name, t: par[name][0] + par[name][1] * t
+    tf = rng.choice([1 / 64, 1 / 128, 1 / 256, 1 / 1024])
+    if t0 < 0:
+        # a start before 0 with the end after 0 (the code refuses T < 0): about one step before 0
+        t0 = -numgen.logdy(rng, 0.5, 1.0, 3) * 2.0 ** math.floor(math.log2(tf / _max_vm(at('nu', 0.0), at('gamma', 0.0), at('h', 0.0))))
+    dt = tf / _max_vm(at('nu', t0), at('gamma', t0), at('h', t0))
+    T = t0 + numgen.logdy(rng, dt * (nsteps - 0.6), dt * (nsteps - 0.1))
+    c = {'kind': kind, 'n': n, 'grid': numgen.grid(rng, n, kind=rng.choice(['uniform', 'exp', 'quad', 'random'])), 'par': par, 'form': dict(forms),
+         'tf': tf, 't0': t0, 'T': T, 'phi': numgen.density(rng, n)}
+    c.update(extra or {})
+    if c.pop('zero_length', False):
+        c['T'] = c['t0']          # "if T - initial_t == 0: return phi"
+    return c
+
+def gen_drv1(ctx):
+    import random
+    rng = random.Random('C01-drv1-%d' % ctx.seed)
+    cases = []
+    def t0gen():
+        return lib.dyadic(rng, 0.25, 4, 3)
+    allf = lambda f: {name: f for name in PAR1}
+    # systematic: initial_t <> 0 with numbers / constant functions / each argument alone as a linear function / all of them
+    cases.append(drv1_case(rng, allf('scalar'), t0gen(), rng.choice([2, 3])))
+    cases.append(drv1_case(rng, allf('const'), t0gen(), rng.choice([2, 3])))
+    for name in PAR1:
+        f = allf('scalar'); f[name] = 'lin'
+        cases.append(drv1_case(rng, f, t0gen(), rng.choice([2, 3])))
+    cases.append(drv1_case(rng, allf('lin'), t0gen(), 3))
+    f = allf('const'); f['beta'] = 'lin'; f['theta0'] = 'lin'
+    cases.append(drv1_case(rng, f, t0gen(), 2))
+    # initial_t = 0 passed explicitly / not passed at all, functions
+    cases.append(drv1_case(rng, allf('lin'), 0.0, 3))
+    cases.append(drv1_case(rng, allf('lin'), 0.0, 2, {'pass_t0': False}))
+    # a negative start (T itself must stay >= 0: the code refuses T < 0)
+    c = drv1_case(rng, allf('lin'), -1.0, 3)
+    assert c['t0'] < 0 < c['T']
+    cases.append(c)
+    # frozen (documented: "equivalent to not running the integration at all"), explicit frozen=False, deme_ids (bookkeeping only)
+    cases.append(drv1_case(rng, allf('scalar'), t0gen(), 2, {'frozen': True}))
+    cases.append(drv1_case(rng, allf('lin'), t0gen(), 2, {'frozen': True}))
+    cases.append(drv1_case(rng, allf('lin'), t0gen(), 2, {'frozen': False, 'deme_ids': ['popA']}))
+    cases.append(drv1_case(rng, allf('scalar'), t0gen(), 2, {'deme_ids': ['popA']}))
+    cases.append(drv1_case(rng, allf('lin'), t0gen(), 2, {'zero_length': True}))
+    for rep in range(ctx.pick(3, 80)):
+        f = {name: rng.choice(['scalar', 'const', 'lin', 'lin']) for name in PAR1}
+        extra = {}
+        if rng.random() < 0.1:
+            extra['frozen'] = rng.random() < 0.5
+        if rng.random() < 0.2:
+            extra['deme_ids'] = ['d%d' % rep]
+        cases.append(drv1_case(rng, f, rng.choice([0.0, t0gen(), t0gen(), t0gen()]), rng.choice([1, 2, 3]), extra))
+    # chaining identity
+    chains = []
+    f1 = allf('lin')
+    f2 = allf('scalar'); f2['nu'] = 'const'; f2['gamma'] = 'lin'
+    f3 = allf('scalar'); f3['nu'] = 'const'; f3['theta0'] = 'lin'
+    for f, t0 in [(f1, 0.0), (f1, t0gen()), (f2, t0gen()), (f3, t0gen())] + [(None, None)] * ctx.pick(0, 30):
+        if f is None:
+            f = {name: rng.choice(['scalar', 'const', 'lin', 'lin']) for name in PAR1}
+            f['nu'] = rng.choice(['const', 'lin', 'lin'])
+            t0 = rng.choice([0.0, t0gen(), t0gen()])
+        ns = rng.randint(4, 6)
+        chains.append(drv1_case(rng, f, t0, ns, {'cut_step': rng.randint(1, ns - 2)}, kind='chain'))
+    cases += chains
+    for i, c in enumerate(cases):
+        c['id'] = i
+    return cases
+
+def coq_onepop(c, t0, T, phi, impl):
+    tdep = any(c['form'][name] != 'scalar' for name in PAR1)
+    return ('{| o1_n := %d%%nat; o1_grid := %s; o1_par := [%s]; o1_frozen := %s; o1_tdep := %s; o1_tf := %s; o1_t0 := %s; o1_T := %s; o1_phi := %s; o1_impl := %s |}' % (
+        c['n'], ql(c['grid']), '; '.join('(%s, %s)' % (q(c['par'][name][0]), q(c['par'][name][1])) for name in PAR1), b(bool(c.get('frozen'))), b(tdep),
+        q(c['tf']), q(t0), q(T), zzl(phi), zzl(impl)))
+
+def drv1_desc(c):
+    def one(name):
+        v, sl = c['par'][name]; f = c['form'][name]
+        return '%s=%s' % (name, repr(v) if f == 'scalar' else '(lambda t: %r)' % v if f == 'const' else '(lambda t: %r + %r*t)' % (v, sl))
+    return 'one_pop(phi, xx, T=%r, %s%s%s%s), timescale_factor=%r, %d grid points' % (
+        c['T'], ', '.join(one(name) for name in PAR1), (', initial_t=%r' % c['t0']) if c.get('pass_t0', True) else '',
+        (', frozen=%r' % c['frozen']) if 'frozen' in c else '', (', deme_ids=%r' % c['deme_ids']) if 'deme_ids' in c else '', c['tf'], c['n'])
+
+def maxdev(a, bb):
+    s = max(max(abs(v) for v in a), max(abs(v) for v in bb), 1e-300)
+    return max(abs(x - y) for x, y in zip(a, bb)) / s if len(a) == len(bb) else float('inf')
+
+def driver1_part(ctx):
+    cases = replay_filter(ctx, gen_drv1(ctx), ('drv1', 'chain'))
+    if not cases:
+        return
+    res = lib.run_impl('c01_impl.py', cases, timeout=900)
+    byid = {r['id']: r for r in res}
+    exprs = []; owner = {}
+    def add(c, label, t0, T, phi, impl):
+        eid = len(exprs)
+        exprs.append((eid, coq_onepop(c, t0, T, phi, impl)))
+        owner[eid] = (c, label)
+    for c in cases:
+        r = byid[c['id']]
+        nf = sum(1 for name in PAR1 if c['form'][name] != 'scalar')
+        ctx.count('driver1 %s, initial_t %s' % ('numbers' if nf == 0 else 'functions' if nf > 1 else [name for name in PAR1 if c['form'][name] != 'scalar'][0] + ' as function',
+                                                '= 0' if c['t0'] == 0 else '<> 0'))
+        if 'frozen' in c: ctx.count('driver1 frozen=%r' % c['frozen'])
+        if 'deme_ids' in c: ctx.count('driver1 deme_ids')
+        vals = [v for k in ('res', 'single', 'leg1', 'leg2') for v in r.get(k, [])]
+        if 'error' in r or not vals or not all(math.isfinite(v) for v in vals):
+            ctx.obligation('driver1 case %d runs' % c['id'], False, 'correspondence', r.get('error', 'non-finite'))
+            ctx.violation('Integration.one_pop failed or returned non-finite values (%s): %s' % (r.get('error', 'non-finite'), drv1_desc(c)), data={'case': c, 'impl': r})
+            continue
+        if c['kind'] == 'drv1':
+            add(c, 'call', c['t0'], c['T'], c['phi'], r['res'])
+        else:
+            ctx.count('driver1 chained calls')
+            add(c, 'single call', c['t0'], c['T'], c['phi'], r['single'])
+            add(c, 'first leg [t0, t1]', c['t0'], r['t1'], c['phi'], r['leg1'])
+            add(c, 'second leg [t1, T]', r['t1'], c['T'], r['leg1'], r['leg2'])
+            dev = maxdev(r['single'], r['leg2'])
+            ok = dev <= 1e-9
+            ctx.obligation('one call over [%r, %r] = calls over [%r, %r], [%r, %r] (t1 = the single call after %d steps): %s' % (
+                c['t0'], c['T'], c['t0'], r['t1'], r['t1'], c['T'], c['cut_step'], drv1_desc(c)), ok, 'predicate', 'max difference / max entry %.3g (tolerance 1e-9)' % dev)
+            if not ok:
+                ctx.violation('Integration.one_pop: integrating over [%r, %r] in one call and in two calls split at t1=%r (the time the single call reaches after %d steps; second call with initial_t=t1) '
+                              'gives densities that differ by %.3g of the largest entry: %s' % (c['t0'], c['T'], r['t1'], c['cut_step'], dev, drv1_desc(c)), data={'case': c, 'impl': r})
+    results = ctx.coq_cases('drv1', HEADER, exprs, '(onepop_check %s)' % q(Fraction(1, 10 ** 9)), 'rel 1e-9 of max|phi|', shard=ctx.pick(4, 12), timeout=1800)
+    nbad = 0; seen = set()
+    for eid, (c, label) in owner.items():
+        rr = results.get(eid)
+        ok = rr is not None and rr[0]
+        if c['id'] not in seen:
+            seen.add(c['id'])
+            ctx.case(signature=('drv1', json.dumps(c, sort_keys=True)))
+        ctx.obligation('one_pop = model driver started at initial_t, case %d (%s): %s' % (c['id'], label, drv1_desc(c)), ok, 'correspondence', '' if ok else 'coq %r' % (rr,))
+        if not ok:
+            nbad += 1
+            if nbad <= 3:
+                ctx.violation('Integration.one_pop differs beyond 1e-9 from the documented scheme integrated from initial_t to T (time step from the parameters at the current time, step with the '
+                              'parameters at the next ABSOLUTE time; frozen = unchanged) - %s: %s' % (label, drv1_desc(c)), data={'case': c, 'impl': byid[c['id']], 'coq': rr})
+
 def run(ctx):
     ctx.level = 'proof'
     ctx.notes.append('PARTIAL: the analytic half is proved (Props/C01.v); the numerical half (convergence under grid / time-step refinement) is checked against Coq-evaluated oracles, not proved')
@@ -671,12 +1058,22 @@ def run(ctx):
                 'exact end points for the genic path); histories = 1-4 epochs, nu in [0.05,20], lengths in [0.005,3], n in 2..30, grid lists '
                 '[p,p+10,p+20] with p >= max(n,40) (a few coarser ones reported separately), linear/log extrapolation, constants / functions of '
                 'time / exponential epochs, Demographics1D.{snm,two_epoch,three_epoch,growth,bottlegrowth}, DFE.DemogSelModels.{equil,two_epoch_sel}; '
-                'stationarity = (nu, gamma, h, beta, theta0, T); distinct = distinct parameter tuples; non-trivial = gamma <> 0 or at least one epoch')
+                'histories as functions of ABSOLUTE time (every run: 6 fixed histories - nu / theta0 / gamma as the time-dependent argument, constant and '
+                'exponential epochs - each by one call from t = 0, by chained calls with initial_t = start and T = end of every epoch, and by one call with '
+                'the time origin moved; thorough: random histories, chained + moved origin, epochs cut into several calls); '
+                'stationarity = (nu, gamma, h, beta, theta0, T); one_pop driver = every argument of the signature (initial_t = 0 / > 0 / < 0 / = T, each of nu, gamma, h, '
+                'beta, theta0 as number / constant function / linear function of time alone and together, frozen, deme_ids) against the model driver started '
+                'at initial_t, and one call against two calls split at a step boundary; distinct = distinct parameter tuples; non-trivial = gamma <> 0 or at least one epoch')
     ctx.assumptions += ['PARTIAL: convergence of the finite-difference scheme to the diffusion and of the diffusion to the coalescent is numerical analysis that '
                         'is not mechanised (no PDE / finite-difference convergence theory installed); it is checked on generated histories against Coq-evaluated oracles',
                         'density correspondence tolerance 1e-7 relative per entry (scipy.integrate.quad has epsrel 1.5e-8; the genic closed form loses 1e-16/|gamma| to cancellation)',
                         'the 1.5% bound is asserted for grid lists whose coarsest grid has >= max(n,40) points; coarser lists are grid-error dominated (reported under a stable key)',
                         'two_epoch_sel with gamma <> 0 has a closed form only for nu = 1 or T/nu >= 25 (relaxed to the new equilibrium): those are the generated cases',
+                        'selection changing with time (gamma as a function of absolute time) is compared with the equilibrium of the LAST coefficient, the last epoch lasting T/nu >= 12 '
+                        '(slowest mode decays like exp(-T/nu)); a mutation rate changing with time is compared with the coalescent oracle weighted epoch by epoch '
+                        '(Model/Coalescent.v ej_aux_th; equal to the constant-theta oracle when the thetas are equal: C01_coal_theta_per_epoch_uniform)',
+                        'functions of time with jumps: the epoch in force at time t is decided with a margin of 1e-9 of the total length, so that the rounding of current_t + this_dt '
+                        'never decides it; sizes drop by at most a factor 4 between consecutive epochs of the random absolute-time histories (the first time step of a call is estimated from the size before the change),',
                         'effective selection coefficients within 1e-6 relative of a regime switch are generated only with nu = beta = 1 (exactly representable); denormal gamma is not generated']
     ctx.trusted += ['scipy.integrate.quad returns the integral (oracle slot of the general-h density; checked at 1e-7 against a Gauss-Legendre rule evaluated in Coq)',
                     'the coalescent formulas of Model/Coalescent.v (Tavare lineage-count probabilities, Fu branch-size probabilities): independent oracle, validated by '
@@ -684,6 +1081,7 @@ def run(ctx):
     only = os.environ.get('C01_ONLY', '')
     guard = read_guard(ctx)
     fnd = Findings(ctx)
+    xcases, xfut = start_histx(ctx) if (not only or 'hist' in only) else ([], None)
     if not only or 'dens' in only:
         density_part(ctx, guard, fnd)
         if not ctx.replay:
@@ -691,10 +1089,12 @@ def run(ctx):
         fnd.flush()
     if (not only or 'drv' in only) and not ctx.replay:
         driver_part(ctx)
+    if (not only or 'drv' in only):
+        driver1_part(ctx)
     if not only or 'stat' in only:
         stationarity_part(ctx, fnd)
         fnd.flush()
     if not only or 'snmfix' in only:
         snm_fixed_part(ctx)
     if not only or 'hist' in only:
-        history_part(ctx)
+        history_part(ctx, xcases, xfut)
